@@ -16,6 +16,24 @@ from pathlib import Path
 from .tlc import MachineryError
 
 VERIF = Path(__file__).resolve().parent.parent
+_LAUNCHED: list = []  # (Popen, outdir) of every worker started by this process
+_LLOCK = __import__("threading").Lock()
+
+
+def cleanup() -> None:
+    """Kill every worker (process group) that is still around and remove its directory; drivers
+    call this in a ``finally`` so that a machinery failure never leaves processes behind."""
+    while _LAUNCHED:
+        p, outdir = _LAUNCHED.pop()
+        try:
+            os.killpg(p.pid, signal.SIGKILL)
+        except (ProcessLookupError, PermissionError):
+            pass
+        try:
+            p.wait(timeout=10)
+        except Exception:
+            pass
+        shutil.rmtree(outdir, ignore_errors=True)
 LOCK_FRAMES = ("lock_tty_wrapper", "_process_start_wrapper", "get_cell_size", "get_fg_bg_colors",
                "get_terminal_name_version")
 
@@ -38,6 +56,8 @@ def launch(job: dict):
         cwd=VERIF, env=env, stdin=subprocess.DEVNULL, stdout=subprocess.DEVNULL, stderr=err,
         start_new_session=True,
     )
+    with _LLOCK:
+        _LAUNCHED.append((p, outdir))
     return p, outdir, job
 
 
@@ -54,6 +74,8 @@ def collect(p: subprocess.Popen, outdir: Path, job: dict) -> dict:
         except (ProcessLookupError, PermissionError):
             pass
         p.wait()
+        with _LLOCK:
+            _LAUNCHED[:] = [x for x in _LAUNCHED if x[0] is not p]
     try:
         stderr = (outdir / "stderr.txt").read_text()[-3000:]
         events = []
